@@ -237,6 +237,26 @@ func pipelines(thorough bool) []program {
 			ps = append(ps, program{Name: fmt.Sprintf("fanout/cap%d/n%d", c, n), Src: src, FanOut: n, Bound: bound, Stages: 1})
 		}
 	}
+	// fan-out with RANGE loops: two workers range over one buffered channel; a
+	// worker's loop may only end because the channel was closed, i.e. after the
+	// producer announced its last item (`sent` is written before every send)
+	for _, c := range caps {
+		if c == 0 {
+			continue
+		}
+		for n := 2; n <= 3; n++ {
+			src := fmt.Sprintf("c = make(chan int64, %d)\nout = make(chan interface, 4)\nsent = 0\n", c) +
+				fmt.Sprintf("go func() { for i = 0; i < %d; i++ { sent = i + 1; c <- i }; close(c) }()\n", n) +
+				"func worker() { k = 0; for v in c { k = k + 1 }; out <- [sent, k] }\n" +
+				"go worker()\ngo worker()\n" +
+				"a = <-out\nb = <-out\n[a[0], b[0], a[1] + b[1]]\n"
+			bound := 2
+			if thorough {
+				bound = 3
+			}
+			ps = append(ps, program{Name: fmt.Sprintf("fanout-range/cap%d/n%d", c, n), Src: src, Expect: render([]interface{}{int64(n), int64(n), int64(n)}), Bound: bound, Stages: 1})
+		}
+	}
 	// hand-off: the consumer passes its range variable to a goroutine per item; every
 	// item must come out exactly once
 	for _, c := range caps {
@@ -462,8 +482,39 @@ func freeRun(stmt ast.Stmt, detached bool) (key string, timedOut bool) {
 	}
 }
 
+// plainEntry: the goroutine-free facts hold whichever entry point runs the script:
+// once more through vm.Execute (a context that can never be cancelled, no
+// scheduler installed), with a guard against a panic reaching the host.
+func plainEntry(res *common.Result) {
+	for _, p := range facts() {
+		if hasGoStmt(p.Src) {
+			continue
+		}
+		var o vmrun.Outcome
+		func() {
+			defer func() {
+				if r := recover(); r != nil {
+					o.Panic = fmt.Sprint(r)
+				}
+			}()
+			o.Val, o.Err = vm.Execute(newEnv(), nil, p.Src)
+		}()
+		o.Verdict = sched.OK
+		o.Returned = true
+		res.Add("plain_entry_runs", 1)
+		if cl, d := check(p, o); cl != "" {
+			res.Violate(common.Violation{Class: cl + "/plain-entry/" + strings.SplitN(p.Name, "/", 2)[0], Case: "vm.Execute: " + p.Name + "\n" + p.Src, Detail: d, Replay: replayData{Program: p}})
+		}
+	}
+}
+
+func hasGoStmt(src string) bool { return strings.Contains(src, "go ") }
+
 func run(c *common.Ctx) *common.Result {
 	res := common.NewResult()
+	if !c.Worker || c.Shard == 0 {
+		plainEntry(res)
+	}
 	progs := append(append(facts(), detached()...), pipelines(c.Thorough())...)
 	freeRuns := 30
 	if c.Thorough() {
